@@ -19,6 +19,8 @@ import glob
 import json
 import os
 import re
+import signal
+import traceback
 
 from harness.lib import common, emb  # noqa: F401  (emb puts REPO on sys.path)
 
@@ -31,6 +33,71 @@ STAGE_FIELDS = "annotate_types"            # right after resolve_field_reference
 
 
 # ===================================================================== real side
+class _Alarm(BaseException):
+    """raised inside the real code when it has used up its CPU-time allowance"""
+
+
+class HangError(Exception):
+    """The real code did not come to an answer: `site` = innermost front-end frame."""
+    def __init__(self, site, seconds):
+        Exception.__init__(self, "no answer after %.0f s of CPU time; looping in %s" % (seconds, site))
+        self.site = site
+
+
+# CPU seconds (ITIMER_VIRTUAL: independent of the load of the machine); the front end needs
+# well under a second for the module sets used here
+CPU_LIMIT = float(os.environ.get("VERIF_C12_CPU_LIMIT", "3"))
+
+
+def _on_alarm(_signum, _frame):
+    raise _Alarm()
+
+
+def _limited_once(fn, seconds):
+    old = signal.signal(signal.SIGVTALRM, _on_alarm)
+    signal.setitimer(signal.ITIMER_VIRTUAL, seconds)
+    try:
+        return fn()
+    except _Alarm as a:
+        site = "?"
+        for fr in traceback.extract_tb(a.__traceback__):
+            if os.sep + os.path.join("compiler", "front_end") + os.sep in fr.filename:
+                site = "%s:%s" % (os.path.basename(fr.filename), fr.name)
+        raise HangError(site, seconds) from None
+    finally:
+        signal.setitimer(signal.ITIMER_VIRTUAL, 0)
+        signal.signal(signal.SIGVTALRM, old)
+
+
+def limited(make_fn):
+    """`make_fn()` returns the call to make (on fresh copies of its inputs); it is made under the
+    CPU-time limit.  If the limit is exceeded the call is repeated once with twice the
+    allowance and the cyclic garbage collector switched off (with some GB of retained IRs a few
+    full collections can eat seconds of CPU time inside one call); only if that does not come
+    back either the outcome is a HangError."""
+    try:
+        return _limited_once(make_fn(), CPU_LIMIT)
+    except HangError:
+        pass
+    import gc
+    was = gc.isenabled()
+    gc.collect()
+    gc.disable()
+    try:
+        return _limited_once(make_fn(), 2 * CPU_LIMIT)
+    finally:
+        if was:
+            gc.enable()
+
+
+def compile_all(files):
+    """The whole front end, under the CPU-time limit."""
+    try:
+        return limited(lambda: (lambda: emb.compile_text(files)))
+    except HangError as h:
+        return None, [], h
+
+
 def parse_files(files, main="m.emb"):
     try:
         ir, _dbg, errors = glue.only_parse_emboss_file(main, test_util.dict_file_reader(files))
@@ -42,8 +109,10 @@ def parse_files(files, main="m.emb"):
 def run_to(ir0, stop):
     """process_ir on a deep copy.  Returns (ir or None, errors, exception or None)."""
     try:
-        ir = ir_data_utils.copy(ir0)
-        ir, errors = glue.process_ir(ir, stop)
+        def make():
+            ir = ir_data_utils.copy(ir0)
+            return lambda: glue.process_ir(ir, stop)
+        ir, errors = limited(make)
         return ir, errors, None
     except Exception as e:  # noqa: BLE001
         return None, [], e
@@ -252,11 +321,17 @@ def observe(files, main="m.emb"):
     o["pre"] = pre
     desc, L, refs_raw, frefs_raw = extract(pre)
     o["desc"], o["L"] = desc, L
+    # hypothesis `Ctx.WellFormed` of the Lean theorems (C12_visible_nodup): the anonymous imports
+    # of the module a reference stands in are distinct files other than the module itself
+    o["ctx_total"] = len(desc["refs"]) + len(desc["frefs"])
+    o["ctx_not_wellformed"] = sum(
+        1 for r in desc["refs"] + desc["frefs"]
+        if r["ctx"]["module"] in r["ctx"]["anon"] or len(set(r["ctx"]["anon"])) != len(r["ctx"]["anon"]))
     o["plain_mask"] = [not r.has_field("canonical_name") for (r, _m, _t, _a) in refs_raw]
     # the resolver's own error list, before glue.process_ir splits off the groups with a
     # synthetic location
     try:
-        raw = symbol_resolver.resolve_symbols(ir_data_utils.copy(pre))
+        raw = limited(lambda: (lambda: symbol_resolver.resolve_symbols(ir_data_utils.copy(pre))))
         o["s1_raw"] = real_errors(raw)
         user, hidden = emb_error.split_errors(raw)
         o["hidden_only"] = bool(hidden) and not user
@@ -282,7 +357,8 @@ def observe(files, main="m.emb"):
 
 
 def exc_key(exc):
-    import traceback
+    if isinstance(exc, HangError):
+        return "hang:" + exc.site
     tb = traceback.extract_tb(exc.__traceback__)
     fr = tb[-1] if tb else None
     return "crash:%s:%s:%s" % (os.path.basename(fr.filename) if fr else "?", fr.name if fr else "?",
@@ -330,14 +406,17 @@ def compare_model(o, ans):
     # resolve_field_references
     fr = ans["frefs"]
     if "fuel" in fr:
-        return ["model ran out of fuel"]
+        # the model's distinct out-of-fuel answer: the alias-following loop does not terminate
+        if isinstance(o["s2_exc"], HangError) and exc_key(o["s2_exc"]) == HANG_KEY:
+            return []
+        return ["model ran out of fuel; real: exc=%r errors=%r" % (o["s2_exc"], o.get("s2_errors"))]
     m_errs = [e["err"] for e in fr if isinstance(e, dict) and "err" in e]
     m_crash = any(e == "crash" for e in fr)
     if o["s2_exc"] is not None:
         k = exc_key(o["s2_exc"])
         if k.startswith("crash:symbol_resolver.py:_resolve_field_reference:") and m_crash:
             return []
-        if not k.startswith("crash:symbol_resolver.py"):
+        if not k.startswith("crash:symbol_resolver.py") and k != HANG_KEY:
             return []          # a later/earlier pass (dependency checker) crashed: not the resolver's
         return ["model %s; real raised %s" % ("crash" if m_crash else "no crash", k)]
     if any(e[0].startswith("other:") for e in o["s2_errors"]):
@@ -422,6 +501,16 @@ def camel(s):
     return "".join(p.capitalize() for p in s.split("_"))
 
 
+def snake(s):
+    """CamelCase -> snake_case such that camel(snake(s)) == s (`UInt` -> `u_int`)."""
+    out = ""
+    for i, ch in enumerate(s):
+        if ch.isupper() and i:
+            out += "_"
+        out += ch.lower()
+    return out
+
+
 class TNode:
     """A type definition of the abstract program."""
     def __init__(self, name, kind, parent, file, inline=False, anon=None):
@@ -452,6 +541,7 @@ class FNode:
         self.ftype, self.abbr, self.array, self.alias = ftype, abbr, array, alias
         self.alias_names = None     # virtual field written as `let v = a.b.c`
         self.type_names = None      # the dotted type name written for the field
+        self.size_names = None      # a dotted name written as the field's size (`[+Foo.AA]`)
         self.line = None
         self.col = None
         self.abbr_col = None
@@ -748,7 +838,7 @@ class Gen:
         for _ in range(n_types):
             nm = self.pick_name(TYPE_POOL + (["UInt"] if self.r.random() < 0.05 else []), used)
             used.add(nm)
-            m.types.append(self.type(nm, m, file, 0))
+            m.types.append(self.type(nm, m, file, 0, kind="external" if self.r.random() < 0.05 else None))
         return m
 
     def type(self, name, parent, file, depth, kind=None, inline=False):
@@ -756,6 +846,9 @@ class Gen:
         kind = kind or r.choice(["struct", "struct", "struct", "bits", "enum"])
         t = TNode(name, kind, parent, file, inline=inline)
         self.scope_types.setdefault(id(t.scope_owner()), set()).add(name)
+        if kind == "external":
+            self.f("external")
+            return t
         if kind == "enum":
             used = set()
             for _ in range(r.randint(1, 3)):
@@ -836,6 +929,128 @@ class Gen:
             return FNode(name, owner, "phys", ftype="ref", abbr=abbr, array=r.random() < 0.15)
         return FNode(name, owner, "phys", ftype=None, abbr=abbr)
 
+    # ---- injected collisions -------------------------------------------------------------
+    def clone_shape(self, src, parent, file, inline=False, kind=None):
+        """A *different* definition with the name and exactly the member names of `src` (a TNode,
+        or ('prelude', name) / an external: no members): same value / field / abbreviation /
+        parameter names, in another order and with other layouts."""
+        r = self.r
+        if isinstance(src, tuple):
+            return TNode(src[1], "external", parent, file)
+        t = TNode(src.name, kind or src.kind, parent, file, inline=inline)
+        if src.kind == "enum":
+            names = [v.name for v in src.values]
+            r.shuffle(names)
+            t.values = [VNode(n, t) for n in names]
+            return t
+        t.params = [FNode(p.name, t, "param") for p in src.params] if not inline else []
+        fs = list(src.fields)
+        r.shuffle(fs)
+        for f in fs:
+            if r.random() < 0.3 and not f.abbr:
+                t.fields.append(FNode(f.name, t, "virt"))
+            else:
+                t.fields.append(FNode(f.name, t, "phys", ftype=None, abbr=f.abbr))
+        return t
+
+    @staticmethod
+    def clonable(src, inline=False):
+        if isinstance(src, tuple):
+            return not inline
+        if src.kind == "external":
+            return not inline
+        if src.anon is not None or src.subtypes or any(f.kind == "anonfield" for f in src.fields):
+            return False
+        if inline and (src.params or (src.kind != "enum" and not src.fields)):
+            return False
+        return True
+
+    def inject_collision(self):
+        """Deliberately makes one type name visible from two scopes and writes a plain reference
+        to it (property statement: "incl. injected collisions").  The second definition is
+        (a) the type of an inline `enum`/`bits`/`struct` field, the plain reference coming before
+        or after that field in the same structure, (b) an explicitly nested type, or (c) a
+        module-level type named like a prelude type; in every variant it has either exactly the
+        member names of the definition it collides with, or different ones.  Returns a tag."""
+        r = self.r
+        orc = Oracle(self.mods, PRELUDE_TYPES)
+        hosts = [t for t in self.all_types() if t.kind in ("struct", "bits") and not t.inline and t.anon is None]
+        if not hosts:
+            return None
+        for _ in range(8):
+            t = r.choice(hosts)
+            own = orc.table(t)
+            outer = []          # (name, definition) offered by the scopes enclosing t
+            for sc in orc.chain(t)[1:]:
+                for n, defs in orc.table(sc).items():
+                    for (k, d) in defs:
+                        if k == "type" and n not in own and not (isinstance(d, TNode) and d.anon is not None):
+                            outer.append((n, d))
+            variant = r.choice(["inline", "inline", "nested", "prelude"])
+            if variant == "prelude":
+                outer = [(n, d) for (n, d) in outer if isinstance(d, tuple)]
+            if not outer:
+                continue
+            same = r.random() < 0.5
+            if same:
+                # prefer a definition whose member names can be repeated in this variant
+                kinds_here = ["enum", "bits"] + (["struct"] if t.kind == "struct" else [])
+                if variant == "inline":
+                    ok = [(n, d) for (n, d) in outer if isinstance(d, TNode) and d.kind in kinds_here
+                          and self.clonable(d, inline=True)]
+                elif variant == "nested":
+                    ok = [(n, d) for (n, d) in outer if isinstance(d, TNode) and d.kind in kinds_here
+                          and self.clonable(d)]
+                else:
+                    ok = outer
+                outer = ok or outer
+            name, src = r.choice(sorted(outer, key=lambda x: (x[0], isinstance(x[1], tuple))))
+            taken = set(own) | set(f.abbr for f in t.fields if f.abbr)
+            ref_name = self.pick_name([n for n in FIELD_POOL if n not in taken] or ["zz"], set())
+            ref = FNode(ref_name, t, "phys", ftype=None)
+            if r.random() < 0.25 and isinstance(src, TNode) and src.kind == "enum" and src.values:
+                ref.size_names = [name, r.choice(src.values).name]       # `[+Name.VALUE]`
+            else:
+                ref.type_names = [name]
+            if variant == "inline":
+                fname = snake(name)
+                if fname in taken or fname == ref_name or camel(fname) != name:
+                    continue
+                kinds = ["enum", "bits"] + (["struct"] if t.kind == "struct" else [])
+                if same and self.clonable(src, inline=True) and src.kind in kinds:
+                    it = self.clone_shape(src, t, t.file, inline=True)
+                else:
+                    same = False
+                    it = self.type(name, t, t.file, self.max_depth, kind=r.choice(kinds), inline=True)
+                t.subtypes.append(it)
+                self.scope_types.setdefault(id(t), set()).add(name)
+                new = FNode(fname, t, "phys", ftype=it)
+                first = r.random() < 0.5            # the plain reference first?
+                pos = r.randint(0, len(t.fields))
+                t.fields[pos:pos] = [ref, new] if first else [new, ref]
+                tag = "inline_%s_%s" % ("ref_first" if first else "ref_after", "same_shape" if same else "other_shape")
+            else:
+                host = t
+                if variant == "prelude":
+                    host = [m for m in self.mods if m.file == t.file][0]
+                    if any(x.name == name for x in host.types):
+                        continue
+                is_ext = isinstance(src, tuple) or src.kind == "external"
+                if same and self.clonable(src) and (is_ext or src.kind != "struct" or t.kind == "struct") \
+                        and (host is not t or not is_ext):       # externals: module level only
+                    nt = self.clone_shape(src, host, t.file)
+                else:
+                    same = False
+                    k = r.choice(["struct", "bits", "enum"]) if (host is not t or t.kind == "struct") else r.choice(["bits", "enum"])
+                    nt = self.type(name, host, t.file, self.max_depth, kind=k)
+                (host.types if host is not t else t.subtypes).append(nt)
+                self.scope_types.setdefault(id(host), set()).add(name)
+                t.fields.insert(r.randint(0, len(t.fields)), ref)
+                tag = "%s_%s" % (variant, "same_shape" if same else "other_shape")
+            self.f("collision_" + tag)
+            return tag
+        return None
+
     # ---- references --------------------------------------------------------------------
     def all_types(self):
         out = []
@@ -855,7 +1070,7 @@ class Gen:
         for t in self.all_types():
             for f in t.fields:
                 if f.ftype == "ref":
-                    f.type_names = self.type_ref_string(t, want=("struct", "bits", "enum"))
+                    f.type_names = self.type_ref_string(t, want=("struct", "bits", "enum", "external"))
                     res = orc.resolve_name(t, f.type_names)
                     f.ftype = None
                     if res[0] == "ok":
@@ -979,6 +1194,9 @@ class Gen:
             names.append(r.choice(FIELD_POOL + ["imp"]))
         elif x < 0.15 and ctx_ty.params:
             names.append(r.choice(ctx_ty.params).name)
+            if r.random() < 0.2:
+                self.f("member_of_parameter")
+                names.append(r.choice(FIELD_POOL))
         else:
             f = r.choice(pool)
             names.append(f.abbr if (f.abbr and r.random() < 0.4) else f.name)
@@ -1062,6 +1280,10 @@ class Gen:
 
     def emit_body(self, e, t, ind):
         pad = "  " * ind
+        if t.kind == "external":
+            e.w(pad + "[addressable_unit_size: 8]")
+            e.nl()
+            return
         if t.kind == "enum":
             for i, v in enumerate(t.values):
                 e.w(pad)
@@ -1122,8 +1344,27 @@ class Gen:
             if r.random() < 0.2:
                 self.field_attr(e, t, f, ind + 1)
             return
-        e.w(pad + "%d [+" % off)
-        if r.random() < 0.3:
+        if f.kind == "phys" and f.size_names is None and not (f.type_names is None and isinstance(f.ftype, TNode)) \
+                and earlier and r.random() < 0.06:
+            # conditional field: the condition is written in the structure's scope
+            self.f("conditional_field")
+            e.w(pad + "if ")
+            self.use_path(e, self.path_string(t, earlier), t)
+            e.w(" == 0:")
+            e.nl()
+            pad = pad + "  "
+            ind = ind + 1
+        if earlier and r.random() < 0.05 and f.kind != "anonfield":
+            # the start of the field given by an earlier field
+            self.f("start_by_field")
+            e.w(pad)
+            self.use_path(e, self.path_string(t, earlier), t)
+            e.w(" [+")
+        else:
+            e.w(pad + "%d [+" % off)
+        if f.size_names is not None:
+            self.use_name(e, f.size_names, t)
+        elif r.random() < 0.3:
             self.expr(e, t, earlier)
         else:
             e.w("1")
@@ -1157,7 +1398,13 @@ class Gen:
                     self.expr(e, t, earlier)
                 e.w(")")
             if f.array:
-                e.w("[2]")
+                if earlier and r.random() < 0.4:
+                    self.f("array_length_ref")
+                    e.w("[")
+                    self.expr(e, t, earlier)
+                    e.w("]")
+                else:
+                    e.w("[2]")
         else:
             self.use_name(e, [r.choice(["UInt", "UInt", "Int", "Flag", "Bcd"])], t)
         e.w("  ")
@@ -1201,6 +1448,8 @@ def gen_case(r, size):
             imports.append((r.choice(["imq", "imq", alias]), imq))
             g.f("import2")
     m = g.module("m.emb", r.randint(1, size), imports=imports)
+    if r.random() < 0.25:
+        g.inject_collision()
     g.assign_field_types()
     files, marks = {}, {}
     for mod in g.mods:
@@ -1321,6 +1570,18 @@ def check_oracle(case, o, chk):
                 out.append((None, "unexpected error from resolve_symbols: %r" % ((kind, name, file, loc),)))
         if not dups and not bad_refs:
             out.append((None, "module rejected (%r) although every name resolves uniquely per the scoping rules" % (o["s1_errors"][:2],)))
+        # the search over the visible scopes runs for every reference, also after the first
+        # error: once the resolution passes are reached (no duplicate definition), every head
+        # name the rules call ambiguous must be reported as such, never silently bound
+        raw = o.get("s1_raw") or o["s1_errors"]
+        if not any(e[0] == "dup" for e in raw):
+            reported = set((e[2], e[3].split("-")[0]) for e in raw if e[0] == "amb")
+            for k, why in bad_refs.items():
+                if why == "ambiguous" and k not in reported:
+                    out.append((None, "module rejected for another reason, but %r at %s:%s is visible from two scopes and "
+                                      "no `Ambiguous name` error was reported for it" % (exp[k][1], k[0], k[1])))
+                elif why == "ambiguous":
+                    st("ambiguity_reported")
         return out
     # accepted by resolve_symbols
     if dups:
@@ -1407,7 +1668,7 @@ def check_oracle(case, o, chk):
     # a static reference that went through an abbreviation from outside its structure must not
     # survive the whole front end
     if case.get("abbr_outside"):
-        ir, errs, exc = emb.compile_text(case["files"])
+        ir, errs, exc = compile_all(case["files"])
         if exc is None and not errs:
             out.append((None, "module accepted by the whole front end although %r binds through an abbreviation from outside its structure" % (case["abbr_outside"],)))
         else:
@@ -1453,16 +1714,38 @@ CORPUS = [
     ({"m.emb": "enum Foo:\n  AA = 1\n  BB = AA + 1\nstruct Bar:\n  0 [+Foo.BB]  UInt  x\n  1 [+BB]  UInt  y\n"}, "enum values are local to the enum"),
     ({"m.emb": "struct Foo(x: UInt:8):\n  0 [+1]  UInt  x\n"}, "parameter and field of the same name"),
     ({"m.emb": "struct Foo:\n  0 [+1]  UInt  long_name (ln)\nstruct Bar:\n  0 [+Foo.ln]  UInt  y\n"}, "static reference through an abbreviation"),
+    # fixed by 8da3027 (was crash:symbol_resolver.py:_resolve_field_reference:AttributeError)
+    ({"m.emb": "struct Foo(p: UInt:8):\n  0 [+1]  UInt  x\n  1 [+p.x]  UInt  y\n"}, "member of a runtime parameter"),
+    ({"m.emb": "struct Foo(p: UInt:8):\n  0 [+1]  UInt  x\n  let q = p\n  1 [+q.x]  UInt  y\n"}, "member of a parameter through an alias"),
+    ({"m.emb": "struct Bar:\n  0 [+1]  UInt  z\nstruct Foo(p: Bar):\n  0 [+1]  UInt  x\n  let y = p.z + 1\n"}, "member of a structure-typed parameter"),
+    ({"m.emb": "struct Foo(p: UInt:8):\n  0 [+1]  UInt  x\nstruct Bar:\n  0 [+1]  Foo(1)  f\n  let y = f.p.x\n"}, "member of a parameter reached as member"),
+    # one name visible from two scopes, around an inline type / with identical member names;
+    # third element: what the language reference demands of resolve_symbols for this input
+    ({"m.emb": "enum Sel:\n  AA = 0\nstruct Pkt:\n  0 [+1]  enum  sel:\n    BB = 1\n  1 [+1]  Sel  other\n"},
+     "inline type collides with outer type, plain reference after", ("amb", "Sel")),
+    ({"m.emb": "enum Sel:\n  AA = 0\nstruct Pkt:\n  0 [+1]  Sel  other\n  1 [+1]  enum  sel:\n    BB = 1\n"},
+     "inline type collides with outer type, plain reference before", ("amb", "Sel")),
+    ({"m.emb": "struct Pkt:\n  0 [+1]  enum  pkt:\n    BB = 1\n  1 [+1]  Pkt  other\n"},
+     "inline type named like its enclosing structure", ("amb", "Pkt")),
+    ({"m.emb": "struct Pkt:\n  0 [+1]  bits:\n    0 [+4]  enum  u_int:\n      BB = 1\n    4 [+4]  UInt  other\n"},
+     "inline type in anonymous bits named like a prelude type", ("amb", "UInt")),
+    ({"m.emb": "enum Lvl:\n  LO = 0\n  HI = 1\nstruct Outer:\n  enum Lvl:\n    HI = 0\n    LO = 1\n  0 [+1]  Lvl  lvl\n"},
+     "two enums with the same value names", ("amb", "Lvl")),
+    ({"m.emb": "struct Pt:\n  0 [+1]  UInt  xx\n  1 [+1]  UInt  yy\nstruct Outer:\n  struct Pt:\n    0 [+2]  UInt  yy\n    2 [+2]  UInt  xx\n  0 [+4]  Pt  p\n"},
+     "two structures with the same field names", ("amb", "Pt")),
+    ({"m.emb": "external Bcd:\n  [addressable_unit_size: 8]\nstruct Foo:\n  0 [+1]  Bcd  f\n"},
+     "external shadowing a prelude external", ("amb", "Bcd")),
 ]
 
 # narrow predicate: every error resolve_symbols reported has a synthetic location (a name inside
 # an anonymous `bits:`), so glue.process_ir defers it and goes on with unresolved references
 HIDDEN_KEY = "resolver-errors-all-hidden-as-synthetic"
+# `let g = f.g` where `f` has the enclosing structure as its type: the alias-following loop of
+# _resolve_field_reference never ends
+HANG_KEY = "hang:symbol_resolver.py:_resolve_field_reference"
 
 # pinned inputs of known findings: (key, files, stage)
 FINDING_INPUTS = {
-    "crash:symbol_resolver.py:_resolve_field_reference:AttributeError":
-        {"m.emb": "struct Foo(p: UInt:8):\n  0 [+1]  UInt  x\n  1 [+p.x]  UInt  y\n"},
     "crash:dependency_checker.py:strong_connect:KeyError":
         {"m.emb": 'import "imp.emb" as imp\nstruct Foo:\n  0 [+1]  UInt  x\n  1 [+imp]  UInt  y\n',
          "imp.emb": "struct Baz:\n  0 [+1]  UInt  q\n"},
@@ -1470,6 +1753,8 @@ FINDING_INPUTS = {
         {"m.emb": "[requires: Foo.BAR]\nenum Foo:\n  BAR = 1\n"},
     "crash:synthetics.py:_add_anonymous_aliases:AssertionError":
         {"m.emb": "struct Foo:\n  0 [+4]  struct  bar:\n    0 [+1]  bits:\n      0 [+1]  Flag  xx\n"},
+    HANG_KEY:
+        {"m.emb": "struct Foo:\n  0 [+1]  Foo  f\n  let g = f.g\n  let h = g.x\n"},
     HIDDEN_KEY:
         {"m.emb": 'import "imp.emb" as foo\nstruct Xyz:\n  0 [+1]  bits:\n    0 [+4]  UInt  foo\n    4 [+foo]  UInt  baz\n',
          "imp.emb": "struct Baz:\n  0 [+1]  UInt  q\n"},
@@ -1477,6 +1762,13 @@ FINDING_INPUTS = {
 
 
 # ===================================================================== run
+def count_ctx(chk, o):
+    if "ctx_total" in o:
+        chk.extra["reference_contexts"] = chk.extra.get("reference_contexts", 0) + o["ctx_total"]
+        chk.extra["reference_contexts_not_wellformed"] = \
+            chk.extra.get("reference_contexts_not_wellformed", 0) + o["ctx_not_wellformed"]
+
+
 def model_line(o):
     return "RESOLVE " + json.dumps(o["desc"], separators=(",", ":"))
 
@@ -1496,6 +1788,7 @@ def evaluate(chk, cases, model_ok, label):
         nviol = len(chk.violations) + len(chk.known_printed)
         o = observe(c["files"])
         chk.count()
+        count_ctx(chk, o)
         obs.append(o)
         # canonical names / find_object directly on the real IR
         ir = o.get("s2_ir") or o.get("s1_ir")
@@ -1515,6 +1808,13 @@ def evaluate(chk, cases, model_ok, label):
                               key=key)
         else:
             exc = first_exception(o)
+            if c.get("expect") is not None and exc is None:
+                got = [(e[0], e[1]) for e in (o.get("s1_errors") or [])]
+                if tuple(c["expect"]) not in got:
+                    chk.violation("input", {"input": c["files"],
+                                            "observed": "resolve_symbols: errors %r, bindings %r" % (got, o.get("s1_refs")),
+                                            "expected": "rejected with %r (language reference: a name visible from "
+                                                        "two scopes is ambiguous)" % (c["expect"],)})
             if exc is not None:
                 chk.violation("input", {"input": c["files"], "observed": "exception %r" % (exc,),
                                         "expected": "IR or located errors"},
@@ -1525,6 +1825,9 @@ def evaluate(chk, cases, model_ok, label):
                                         "expected": "a visible error"}, key=HIDDEN_KEY)
         if len(chk.violations) + len(chk.known_printed) != nviol:
             failing.add(ci)
+        # the IRs are not needed for the comparison with the model: free them now
+        for k in ("pre", "s1_ir", "s2_ir", "ref_nodes", "fref_nodes"):
+            o.pop(k, None)
     if not model_ok:
         return obs
     idx = [i for i, o in enumerate(obs) if o["stage"] == "resolver"]
@@ -1601,6 +1904,7 @@ def observe_testdata(chk, model_ok):
     for c in cases:
         o = observe(files, c["main"])
         chk.count()
+        count_ctx(chk, o)
         ir = o.get("s2_ir") or o.get("s1_ir")
         if ir is not None:
             problems, n = check_canonical(ir)
@@ -1639,13 +1943,17 @@ def known_findings(chk):
         files = k.get("input")
         if isinstance(files, str):
             files = {"m.emb": files}
-        ir, errs, exc = emb.compile_text(files)
+        ir, errs, exc = compile_all(files)
         if exc is not None and exc_key(exc) == k["key"]:
             chk.report_known(k)
         elif k["key"] == HIDDEN_KEY:
             o = observe(files)
             if o.get("hidden_only") and (exc is not None or not errs):
                 chk.report_known(k)
+
+
+def corpus_cases():
+    return [{"files": c[0], "expect": c[2] if len(c) > 2 else None} for c in CORPUS]
 
 
 def generated_cases(r, n, size):
@@ -1664,7 +1972,7 @@ def search(chk):
     before = len(chk.violations)
     r = common.rng("C12-search")
     cases, _f = generated_cases(r, 400, 4)
-    evaluate(chk, [{"files": f} for (f, _n) in CORPUS] + cases, False, "search")
+    evaluate(chk, corpus_cases() + cases, False, "search")
     return len(chk.violations) - before
 
 
@@ -1678,7 +1986,7 @@ def run(tier):
     model_ok = common.proof_gate(chk, search)
     known_findings(chk)
     observe_testdata(chk, model_ok)
-    evaluate(chk, [{"files": f} for (f, _n) in CORPUS], model_ok, "corpus")
+    evaluate(chk, corpus_cases(), model_ok, "corpus")
     evaluate(chk, [{"files": f} for f in FINDING_INPUTS.values()], model_ok, "finding inputs")
     r = common.rng("C12")
     n = 350 if tier == "quick" else 4000
